@@ -79,12 +79,16 @@ Definition b2n (b : bool) : N := if b then 1%N else 0%N.
 Definition count (k : N) (l : list N) : N := N.of_nat (length (filter (N.eqb k) l)).
 
 (* ---- the tail-recursion rewrite ---- *)
+Definition closure_named (P : program) (g : N) : bool := existsb (N.eqb g) (program_closure_fns P).
+
 Fixpoint assoc (l : list (name * name)) (x : name) : name :=
   match l with [] => 0%N | (y, z) :: r => if N.eqb x y then z else assoc r x end.
 
 (* one function: [status; changed; wf_tail; seeded variant = real; discards; ret_const]
    status 0: model output = real output; 1: they differ *)
-Definition tie_tail (tp : list (name * name)) (k : N) (before after : func) : list N :=
+(* one function: [status; changed; wf_tail; seeded variant = real; discards; ret_const; unit-parameter class]
+   status 0: model output = real output; 1: they differ *)
+Definition tie_tail (tp : list (name * name)) (P1 : program) (k : N) (before after : func) : list N :=
   let m := tail_rec_rewrite false (assoc tp) k before in
   let ms := tail_rec_rewrite true (assoc tp) k before in
   let nd := match top_rc before with
@@ -95,14 +99,21 @@ Definition tie_tail (tp : list (name * name)) (k : N) (before after : func) : li
             | None => 0%N
             end in
   [(if func_eqb m after then 0 else 1)%N; b2n (negb (func_eqb before after)); b2n (wf_tail (assoc tp) k before);
-   b2n (func_eqb ms after); nd; b2n (ret_const before)].
+   b2n (func_eqb ms after); nd; b2n (ret_const before);
+   b2n (negb (closure_named P1 (f_name before)) && unit_param_class (assoc tp) k P1 before)].
 
-(* instances: every changed function of P1 on 4 argument vectors, callees taken from the same program;
+(* instances: every changed function of P1 on 4 argument vectors, callees taken from the same program; a parameter
+   that is returned at a leaf of a unit function (unit-parameter class) gets the value every unit has, 0;
    [source out of fuel; same; different; same and Done] *)
+Definition zero_leaf_params (f : func) : list name :=
+  if ret_const f then [] else match ret_leaves f with Some ps => ps | None => [] end.
+
 Definition inst_tail (fuel : nat) (P1 P2 : program) : list N :=
   let rs := flat_map (fun ff =>
                         if func_eqb (fst ff) (snd ff) then []
-                        else map (fun j => let a := arg_vector (length (f_params (fst ff))) j in
+                        else map (fun j => let zs := zero_leaf_params (fst ff) in
+                                           let a := map (fun pv => if memb (fst pv) zs then 0 else snd pv)
+                                                        (combine (f_params (fst ff)) (arg_vector (length (f_params (fst ff))) j)) in
                                            sem_case fuel P1 P2 (f_name (fst ff)) a a) (seq 0 4))
                      (combine P1 P2) in
   [count 0 rs; count 1 rs + count 3 rs; count 2 rs; count 3 rs]%N.
@@ -148,4 +159,4 @@ Definition inst_cpe (fuel : nat) (P0 P1 : program) : list N :=
 (* one real program: P0 -cpe-> P1 -tailrec-> P2; ks = the first temporary of every function of P1 *)
 Definition tie_job (fuel : nat) (tp : list (name * name)) (P0 P1 P2 : program) (ks : list N) : list (list N) :=
   tie_cpe P0 P1 :: inst_cpe fuel P0 P1 :: inst_tail fuel P1 P2 ::
-  map (fun x => tie_tail tp (snd x) (fst (fst x)) (snd (fst x))) (combine (combine P1 P2) ks).
+  map (fun x => tie_tail tp P1 (snd x) (fst (fst x)) (snd (fst x))) (combine (combine P1 P2) ks).
